@@ -109,7 +109,7 @@ package crypto
 
 // msum(sigs, n): total number of entries of the first n signatures (all multi-signatures).
 //@ pure func msum(sigs []hotstuff.QuorumSignature, n int) int = n <= 0 ? 0 : msum(sigs, n - 1) + len(as(sigs[n - 1], Multi[*ECDSASignature])) decreases n
-//@ func (*ECDSA).Combine property C19,C09
+//@ func (*ECDSA).Combine property C19,C09,C02,C08
 //@   ensures [keeps-count] result1 == nil ==> len(as(result0, Multi[*ECDSASignature])) == msum(signatures, len(signatures))
 //@   ensures [entries-from-inputs] result1 == nil ==> (forall j int :: {as(result0, Multi[*ECDSASignature])[j]} 0 <= j && j < len(as(result0, Multi[*ECDSASignature])) ==> (exists k int, i int :: {old(as(signatures[k], Multi[*ECDSASignature])[i])} 0 <= k && k < len(signatures) && 0 <= i && i < len(as(signatures[k], Multi[*ECDSASignature])) && old(as(signatures[k], Multi[*ECDSASignature])[i]) == as(result0, Multi[*ECDSASignature])[j]))
 //@   loop 0 invariant [count] len(ts) == msum(signatures, rangeindex + 1)
@@ -139,7 +139,7 @@ package crypto
 //@   ensures [sound] result == nil ==> signature != nil && hotstuff.setlen(hotstuff.parts(signature)) >= 1 && (forall id hotstuff.ID :: hotstuff.setmem(hotstuff.parts(signature), id) ==> has(batch, id) && sigvalid(self, signature, id, content(batch[id])))
 
 // ---- repeated signers are rejected before any quorum is counted
-//@ func (Multi[*ECDSASignature]).hasDuplicateSigner property C02,C19
+//@ func (Multi[*ECDSASignature]).hasDuplicateSigner property C02,C19,C03,C07,C08,C09
 //@   requires mnonnil(sig)
 //@   ensures [def] result == !mdistinct(sig)
 //@   loop 0 invariant [seen] forall id hotstuff.ID :: has(seen, id) == (exists i int :: {sig[i]} 0 <= i && i <= rangeindex && sig[i].signer == id)
@@ -150,11 +150,11 @@ package crypto
 // Sequential part of ECDSA verification (the per-signature checks run in goroutines and are
 // not modelled: their outcome is arbitrary here): an accepted signature is a non-empty
 // Multi with pairwise distinct signers.
-//@ func (*ECDSA).Verify property C02,C19
+//@ func (*ECDSA).Verify property C02,C19,C03,C07,C08,C09
 //@   requires forall sg hotstuff.QuorumSignature :: istype(sg, Multi[*ECDSASignature]) ==> mnonnil(as(sg, Multi[*ECDSASignature]))
 //@   ensures [distinct] result == nil ==> istype(signature, Multi[*ECDSASignature]) && len(as(signature, Multi[*ECDSASignature])) >= 1 && mdistinct(as(signature, Multi[*ECDSASignature]))
 //@   modifies alloc
-//@ func (*ECDSA).BatchVerify property C02,C19
+//@ func (*ECDSA).BatchVerify property C02,C19,C03,C07,C08,C09
 //@   requires forall sg hotstuff.QuorumSignature :: istype(sg, Multi[*ECDSASignature]) ==> mnonnil(as(sg, Multi[*ECDSASignature]))
 //@   ensures [distinct] err == nil ==> istype(signature, Multi[*ECDSASignature]) && len(as(signature, Multi[*ECDSASignature])) >= 1 && mdistinct(as(signature, Multi[*ECDSASignature]))
 //@   modifies alloc
@@ -181,7 +181,7 @@ package crypto
 
 // msumEd(sigs, n): total number of entries of the first n signatures (all multi-signatures).
 //@ pure func msumEd(sigs []hotstuff.QuorumSignature, n int) int = n <= 0 ? 0 : msumEd(sigs, n - 1) + len(as(sigs[n - 1], Multi[*EDDSASignature])) decreases n
-//@ func (*EDDSA).Combine property C19,C09
+//@ func (*EDDSA).Combine property C19,C09,C02,C08
 //@   ensures [keeps-count] result1 == nil ==> len(as(result0, Multi[*EDDSASignature])) == msumEd(signatures, len(signatures))
 //@   ensures [entries-from-inputs] result1 == nil ==> (forall j int :: {as(result0, Multi[*EDDSASignature])[j]} 0 <= j && j < len(as(result0, Multi[*EDDSASignature])) ==> (exists k int, i int :: {old(as(signatures[k], Multi[*EDDSASignature])[i])} 0 <= k && k < len(signatures) && 0 <= i && i < len(as(signatures[k], Multi[*EDDSASignature])) && old(as(signatures[k], Multi[*EDDSASignature])[i]) == as(result0, Multi[*EDDSASignature])[j]))
 //@   loop 0 invariant [count] len(ts) == msumEd(signatures, rangeindex + 1)
@@ -200,7 +200,7 @@ package crypto
 //@   modifies alloc
 
 // ---- repeated signers are rejected before any quorum is counted
-//@ func (Multi[*EDDSASignature]).hasDuplicateSigner property C02,C19
+//@ func (Multi[*EDDSASignature]).hasDuplicateSigner property C02,C19,C03,C07,C08,C09
 //@   requires mnonnilEd(sig)
 //@   ensures [def] result == !mdistinctEd(sig)
 //@   loop 0 invariant [seen] forall id hotstuff.ID :: has(seen, id) == (exists i int :: {sig[i]} 0 <= i && i <= rangeindex && sig[i].signer == id)
@@ -211,11 +211,11 @@ package crypto
 // Sequential part of EdDSA verification (the per-signature checks run in goroutines and are
 // not modelled: their outcome is arbitrary here): an accepted signature is a non-empty
 // Multi with pairwise distinct signers.
-//@ func (*EDDSA).Verify property C02,C19
+//@ func (*EDDSA).Verify property C02,C19,C03,C07,C08,C09
 //@   requires forall sg hotstuff.QuorumSignature :: istype(sg, Multi[*EDDSASignature]) ==> mnonnilEd(as(sg, Multi[*EDDSASignature]))
 //@   ensures [distinct] result == nil ==> istype(signature, Multi[*EDDSASignature]) && len(as(signature, Multi[*EDDSASignature])) >= 1 && mdistinctEd(as(signature, Multi[*EDDSASignature]))
 //@   modifies alloc
-//@ func (*EDDSA).BatchVerify property C02,C19
+//@ func (*EDDSA).BatchVerify property C02,C19,C03,C07,C08,C09
 //@   requires forall sg hotstuff.QuorumSignature :: istype(sg, Multi[*EDDSASignature]) ==> mnonnilEd(as(sg, Multi[*EDDSASignature]))
 //@   ensures [distinct] result == nil ==> istype(signature, Multi[*EDDSASignature]) && len(as(signature, Multi[*EDDSASignature])) >= 1 && mdistinctEd(as(signature, Multi[*EDDSASignature]))
 //@   modifies alloc
